@@ -179,10 +179,18 @@ def gm_case(draw):
 
     n = draw(st.integers(1, 3))
     D = draw(st.integers(4, 5))
+    active = draw(st.booleans())  # variant A: small displacements / squeezers as well (larger cutoff, truncation tolerance)
     alph = ["Rgate", "Rgate", "BSgate", "MZgate", "Kgate", "CKgate", "Interferometer"] if n > 1 else ["Rgate", "Kgate"]
+    if active:
+        alph = alph + ["Dgate", "Dgate", "Sgate"]
+        D = 8 if n < 3 else 7
     ops_ = []
     for _ in range(draw(st.integers(2, 9))):
         name = draw(st.sampled_from(alph))
+        if name in ("Dgate", "Sgate"):
+            m = draw(st.integers(0, n - 1))
+            ops_.append([name, [draw(gen.fl(0.05, 0.2)) * (1 if name == "Dgate" else draw(st.sampled_from([1, -1]))), draw(gen.angle())], [m], {"H": True} if draw(st.integers(0, 3)) == 0 else {}])
+            continue
         if name == "Interferometer":
             tm = list(draw(st.permutations(list(range(n))))[: draw(st.integers(1, n))])
             ops_.append([name, [spec.enc_matrix(draw(gen.unitary(len(tm)))[1])], tm, {}])
@@ -190,7 +198,7 @@ def gm_case(draw):
             o = draw(gen.op_spec(n, [name], "fock", dagger=True, no_mz_dagger=True))
             ops_.append(o)
     meas = draw(st.sampled_from([None, None, "fock"]))
-    return {"n": n, "cutoff": D, "ket": draw(ket_terms(n, min(D - 1, 2))), "ops": ops_, "measure": meas}
+    return {"n": n, "cutoff": D, "ket": draw(ket_terms(n, min(D - 1, 2) if not active else 1)), "ops": ops_, "measure": meas, "active": active}
 
 
 def check_gm(ctx, case):
@@ -214,6 +222,8 @@ def check_gm(ctx, case):
         return prog
 
     labels = ["compiler:gaussian_merge"] + gen.labels_of(case["ops"])
+    if case.get("active"):
+        labels.append("variant_active")
     nongauss = [o for o in case["ops"] if o[0] in ("Kgate", "CKgate")]
     gauss_runs = 0
     run = 0
@@ -257,7 +267,15 @@ def check_gm(ctx, case):
     except Exception as exc:  # pylint: disable=broad-except
         return ctx.crash(exc, "run_compiled")
     d = float(np.max(np.abs(fockref.state_dm(s0) - fockref.state_dm(s1))))
-    if d > 1e-8:
+    tol = 1e-8
+    if case.get("active"):
+        # active Gaussian gates: both programs are truncated differently; allow what the trace loss explains
+        tr = min(fockref.trace(fockref.state_dm(s0), n), fockref.trace(fockref.state_dm(s1), n))
+        tol = 2e-3 + 4 * np.sqrt(max(0.0, 1 - tr))  # amplitude errors scale with the square root of the lost weight
+        if tol > 0.05:
+            ctx.label("truncation_dominated")
+            return None
+    if d > tol:
         return ctx.fail("gaussian_merge.wrong_program", "states of source and compiled program differ by %.3g; compiled: %s" % (d, [str(c.op)[:24] + str([r.ind for r in c.reg]) for c in comp.circuit][1:]))
     return None
 
